@@ -130,8 +130,12 @@ theorem p2r_loop (st : Strand) (hst : st ≠ .unstranded) (p : Int) :
     unfold Model.singleP2R
     by_cases hp : p < (b.1 : Int) ∨ p ≥ (b.2 : Int)
     · simp only [hp, if_true]
-      rw [ih _ hv.2, hl]
-      rfl
+      -- robust to arithmetic-identity rewrites of the `rel_pos += len(block)` line: the new state is compared by omega
+      show afterP2R (Gen.CompoundInterval_parent_to_relative_pos_loop1 p _ _)
+        = some (Model.p2rWalk st p bs (acc + (b.len : Int)))
+      rw [← ih (acc + (b.len : Int)) hv.2]
+      congr 2
+      omega
     · cases st with
       | unstranded => exact absurd rfl hst
       | plus => simp [hp, afterP2R]; rfl
